@@ -27,6 +27,15 @@ CHECKS = {
     "C12": dict(level="exploration", ref="3 (C12)", technique="runtime monitor: reference-model comparison, exhaustive over a bounded key universe",
                 text="Every map over a bounded key universe (all key subsets x all run partitions) and every request -50..305 is pushed through the real setPwm; "
                      "the value received by the fan is compared with an O(n) reference (nearest supported input). Exhaustive for the universe, random beyond it."),
+    "C18": dict(level="exploration", ref="6 (C18)", technique="runtime monitor: outside observation of execution (marker file) against a reference predicate, exhaustive grid",
+                text="Exhaustive owner x group x 512 modes x {direct, symlink} grid through the real SafeCmdExecution and the cmd sensor/fan entry points; each file is a "
+                     "script that leaves a marker, so 'was executed' is observed independently of fan2go's return value; ownership/mode flips between consecutive calls; "
+                     "config-file rule grid.",
+                note="Runs as root. Trusted base: harness, /bin/sh, chown/chmod semantics of the scratch file system (tmpfs)."),
+    "C19": dict(level="fault_enumeration", ref="6 (C19)", technique="runtime monitor: failure-mode enumeration with elapsed-time and result oracle (wall clock with grey zone)",
+                text="Every listed failure mode x several timeouts is executed for real through SafeCmdExecution and the wrappers; oracle: no panic, (output, nil) or "
+                     "('', error), error when cut off by the deadline, elapsed <= timeout + 1 s (violations land >= 3 s beyond).",
+                note="Wall-clock oracle: grey zone (timeout+1.0, timeout+2.5) s is retried, then inconclusive. Trusted base: harness, /bin/sh, sleep."),
 }
 
 
